@@ -446,3 +446,35 @@ pub fn extract(tokens: &str) -> Result<Vec<ExtractedModule>, String> {
     }
     Ok(out)
 }
+
+/// Source text of every generated string enum (the enum item and its two impls), per module:
+/// what a consumer would supply for an `extern_enums` entry to keep the wire behaviour.
+pub fn enum_sources(tokens: &str) -> Vec<(String, String, String)> {
+    let file: syn::File = match syn::parse_str(tokens) {
+        Ok(f) => f,
+        Err(_) => return vec![],
+    };
+    let mut out = Vec::new();
+    for it in &file.items {
+        if let syn::Item::Mod(m) = it {
+            if let Some((_, content)) = &m.content {
+                for inner in content {
+                    if let syn::Item::Enum(e) = inner {
+                        let name = e.ident.to_string();
+                        let impls: Vec<String> = content
+                            .iter()
+                            .filter_map(|x| match x {
+                                syn::Item::Impl(imp) if nospace(&imp.self_ty) == name && imp.trait_.is_some() => Some(x.to_token_stream().to_string()),
+                                _ => None,
+                            })
+                            .collect();
+                        if impls.len() == 2 {
+                            out.push((m.ident.to_string(), name, format!("{}\n{}", inner.to_token_stream(), impls.join("\n"))));
+                        }
+                    }
+                }
+            }
+        }
+    }
+    out
+}
